@@ -53,12 +53,13 @@ PROPS = {
     },
     "C20": {
         "level": "exploration",
-        "level_text": "Generated mixed-verdict histories with a recording metric factory installed before the first witness exists; after every request the delta of every witness_update_* counter and label is compared with what the observed verdict allows (and nothing else may move).",
+        "level_text": "Generated mixed-verdict histories with a recording metric factory installed before the first witness exists; after every request the delta of every witness_update_* counter and label is compared with what the observed verdict allows (and nothing else may move). Part 'race' runs every interleaving of every two-request scenario under the C05 scheduler on both stores and compares the movement of the counters during the concurrent phase with the outcomes.",
         "level_note": "Verdict taken from the observed Update result (its agreement with the protocol rules is C09's business); counters are process-wide so each shard is one process and runs its cases sequentially.",
         "technique": "property-based testing: generated histories, per-step counter-delta oracle (rapid)",
         "assumptions": HIST_ASSUME,
         "parts": {
             "hist": {"bin": "verifh", "run": "TestC20", "checks": {"quick": 400, "thorough": 320000}, "shards": {"quick": 4, "thorough": 16}},
+            "race": {"bin": "verifh", "run": "TestC20Race", "kind": "plain"},
         },
     },
     "C02": {
@@ -183,7 +184,7 @@ PROPS = {
     },
     "C17": {
         "level": "exploration",
-        "level_text": "Finite and exhaustive: every entry of both shipped YAML files in the working tree is pushed through the functions Main uses (yaml schema, config.NewLog, AsLogMap, feeder enum) and one real feeder cycle against a network that records and refuses every request (URL well-formed, supported scheme, required query parameters, no panic); the real omniwitness.Main is started with each file and must come up; the same oracle is then run on 8 kinds of damaged copies per entry and must reject each, which shows it can fail.",
+        "level_text": "Finite and exhaustive: every entry of both shipped YAML files in the working tree is pushed through the functions Main uses (yaml schema, config.NewLog, AsLogMap, feeder enum) and one real feeder cycle against a network that records and refuses every request (URL well-formed, supported scheme, required query parameters, no panic); the real omniwitness.Main is started with each file and must come up; the same oracle is then run on 8 kinds of damaged copies per entry and must reject each, which shows it can fail. Each entry with a feeder is also fed for real (substitute key) from a stub serving a first checkpoint at the URL as written in the file; Main is started without and with polling (a request from every feeder entry's URL, a distributor question about every configured log).",
         "level_note": "The space is the fixed file, so generation is applied to the loader (config defects) rather than to the file.",
         "technique": "exhaustive enumeration of the shipped configuration + mutation-based sensitivity of the loader oracle",
         "assumptions": ["the working tree's omniwitness/logs.yaml and logs_test.yaml are what gets embedded"],
